@@ -3,13 +3,16 @@
 (* all reply orders, Close / StopTraversing at every point, consumer reading or giving up.       *)
 EXTENDS Announce
 
-CONSTANTS NetId,      \* which network of the library
+CONSTANTS NetId,      \* which network of the library; "all": any of them (chosen by the initial state)
           OptId,      \* which option set; "all": any of them (chosen by the initial state)
           K, Alpha,
           ConsStops,  \* the consumer may stop reading (for good) at any point
           ApiStops,   \* Close / StopTraversing may be called (each once) at any point
           AnnHolds    \* TRUE: the network's annhold nodes never answer announce_peer (such a query ends
                       \* only when Close cancels it); FALSE: every announce_peer ends by itself
+
+VARIABLE netid       \* the network of this behaviour (constant)
+mcvars == <<vars, netid>>
 
 R(kind, i, tokk, tok, ns, nv) == [kind |-> kind, id |-> i, tokk |-> tokk, tok |-> tok, nodes |-> ns, nvals |-> nv]
 C(a, i) == [addr |-> a, id |-> i]
@@ -46,7 +49,8 @@ N4 == [net |-> [n \in A3 |-> CASE n = "a" -> Tok("a", 7, {C("b", 3)})
                                [] n = "c" -> Tok("c", 1, {C("a", 7), C("b", 3)})],
        entry |-> {"a"}, target |-> 0, annhold |-> {"b"}]
 
-G == CASE NetId = "n1" -> N1 [] NetId = "n2" -> N2 [] NetId = "n3" -> N3 [] NetId = "n4" -> N4
+NetIds == {"n1", "n2", "n3", "n4"}
+G == CASE netid = "n1" -> N1 [] netid = "n2" -> N2 [] netid = "n3" -> N3 [] netid = "n4" -> N4
 
 \* ---- option sets: [announce, port, implied, scrape]
 OptIds == {"port", "implied", "both", "noport", "none"}
@@ -59,6 +63,7 @@ OptOf(i) == CASE i = "port" -> [announce |-> TRUE, port |-> 7, implied |-> FALSE
 NA == DOMAIN G.net
 
 Init ==
+  /\ netid \in (IF NetId = "all" THEN NetIds ELSE {NetId})
   /\ \E i \in (IF OptId = "all" THEN OptIds ELSE {OptId}) : LET O == OptOf(i) IN
        opt = [k |-> K, alpha |-> Alpha, target |-> G.target, announce |-> O.announce, port |-> O.port,
               implied |-> O.implied, scrape |-> O.scrape,
@@ -74,36 +79,44 @@ Init ==
   /\ deliv = [n \in NA |-> 0] /\ sent = {} /\ eligible = {} /\ aband = {}
 
 \* the network answers (only nodes that answer at all)
-RecvE == \E n \in NA : G.net[n].kind # "none" /\ Recv(n, G.net[n])
-StartE == \E n \in NA : StartQuery(n, FALSE)
-TimeoutE == \E n \in NA : Timeout(n)
-CancelE == \E n \in NA : Cancel(n)
-TakeE == \E n \in NA : Take(n)
-DeliverE == \E n \in NA : Deliver(n)
-AbandonE == \E n \in NA : Abandon(n)
-PostE == \E n \in NA : Post(n)
-AnnSendE == \E n \in NA : AnnSend(n)
-AnnSkipE == \E n \in NA : AnnSkip(n)
-AnnEndE == \E n \in NA : AnnEnd(n)
+Same(A) == A /\ UNCHANGED netid
+RecvE == Same(\E n \in NA : G.net[n].kind # "none" /\ Recv(n, G.net[n]))
+StartE == Same(\E n \in NA : StartQuery(n, FALSE))
+TimeoutE == Same(\E n \in NA : Timeout(n))
+CancelE == Same(\E n \in NA : Cancel(n))
+TakeE == Same(\E n \in NA : Take(n))
+DeliverE == Same(\E n \in NA : Deliver(n))
+AbandonE == Same(\E n \in NA : Abandon(n))
+PostE == Same(\E n \in NA : Post(n))
+AnnSendE == Same(\E n \in NA : AnnSend(n))
+AnnSkipE == Same(\E n \in NA : AnnSkip(n))
+AnnEndE == Same(\E n \in NA : AnnEnd(n))
+StopperDoneE == Same(StopperDone)
+FinStalledE == Same(FinStalled)
+FinStopE == Same(FinStop)
+FinStoppedE == Same(FinStopped)
+FinAnnouncedE == Same(FinAnnounced)
+FinSetDoneE == Same(FinSetDone)
+FinClosePeersE == Same(FinClosePeers)
 
-StopTravE == ApiStops /\ ~userStop /\ StopTraversing
-CloseE == ApiStops /\ ~closedF /\ Close
-ConsStopE == ConsStops /\ reading /\ ConsSet(FALSE)
+StopTravE == Same(ApiStops /\ ~userStop /\ StopTraversing)
+CloseE == Same(ApiStops /\ ~closedF /\ Close)
+ConsStopE == Same(ConsStops /\ reading /\ ConsSet(FALSE))
 
 Next == \/ StartE \/ RecvE \/ TimeoutE \/ CancelE \/ TakeE \/ DeliverE \/ AbandonE \/ PostE
-        \/ StopperDone \/ FinStalled \/ FinStop \/ FinStopped \/ AnnSendE \/ AnnSkipE \/ AnnEndE
-        \/ FinAnnounced \/ FinSetDone \/ FinClosePeers
+        \/ StopperDoneE \/ FinStalledE \/ FinStopE \/ FinStoppedE \/ AnnSendE \/ AnnSkipE \/ AnnEndE
+        \/ FinAnnouncedE \/ FinSetDoneE \/ FinClosePeersE
         \/ StopTravE \/ CloseE \/ ConsStopE
 
-Spec == Init /\ [][Next]_vars
+Spec == Init /\ [][Next]_mcvars
 
 \* weak fairness of everything the node and the network do by themselves; none for the API user
 \* and for the consumer's decision to stop reading
-Fair == /\ WF_vars(StartE) /\ WF_vars(RecvE) /\ WF_vars(TimeoutE) /\ WF_vars(CancelE) /\ WF_vars(TakeE)
-        /\ WF_vars(DeliverE) /\ WF_vars(AbandonE) /\ WF_vars(PostE) /\ WF_vars(StopperDone)
-        /\ WF_vars(FinStalled) /\ WF_vars(FinStop) /\ WF_vars(FinStopped)
-        /\ WF_vars(AnnSendE) /\ WF_vars(AnnSkipE) /\ WF_vars(AnnEndE)
-        /\ WF_vars(FinAnnounced) /\ WF_vars(FinSetDone) /\ WF_vars(FinClosePeers)
+Fair == /\ WF_mcvars(StartE) /\ WF_mcvars(RecvE) /\ WF_mcvars(TimeoutE) /\ WF_mcvars(CancelE) /\ WF_mcvars(TakeE)
+        /\ WF_mcvars(DeliverE) /\ WF_mcvars(AbandonE) /\ WF_mcvars(PostE) /\ WF_mcvars(StopperDoneE)
+        /\ WF_mcvars(FinStalledE) /\ WF_mcvars(FinStopE) /\ WF_mcvars(FinStoppedE)
+        /\ WF_mcvars(AnnSendE) /\ WF_mcvars(AnnSkipE) /\ WF_mcvars(AnnEndE)
+        /\ WF_mcvars(FinAnnouncedE) /\ WF_mcvars(FinSetDoneE) /\ WF_mcvars(FinClosePeersE)
 FairSpec == Spec /\ Fair
 
 \* ---- vacuity guards: the interesting things do happen in this instance
